@@ -55,7 +55,20 @@ from . import e3_bounds
           'covered compositionally (each node owns its own buffers).')
 def c18(F, R, tier):
     e3_bounds.run_bounds(F, R, want_c15=False, want_c18=True)
-    R.floor('M1-bounded', 34)
+    # coverage guard (instead of a fixed count, which a legitimate refactoring that removes buffers would trip): every field
+    # whose declared type mentions Vec / VecDeque -- found by an independent scan of the type strings -- must have been
+    # judged (tracked buffer with an M1 obligation, or reported as unmodelled); and every view must have been analysed
+    import re as _re
+    judged = {o[1] for o in R.obligations if o[0] == 'M1-bounded'}
+    nfields = 0
+    for v in F.views:
+        for f in v.fields:
+            if _re.search(r'\b(Vec|VecDeque)\s*<', str(f.ty_str)):
+                nfields += 1
+                if not any(j.startswith('%s:%s' % (v.name, f.name)) for j in judged):
+                    R.violation('M1-coverage', '%s:%s' % (v.name, f.name), 'field %s: %s holds a growable buffer that the analysis did not judge' % (f.name, f.ty_str), v.file)
+    R.ob('M1-coverage', 'crate', len(F.views) >= 30, '%d views analysed, %d buffer-typed fields all judged' % (len(F.views), nfields))
+
 
 
 @register('C15', 'other',
